@@ -4,16 +4,7 @@ wrappers, primitive crate-local functions."""
 import interp
 from interp import Interp, Undecided, UNIT, loc_s
 
-FLAG = "poisonable::flag::<impl poisonable::PoisonFlag>::"
-
-ALG_PRIMS = [
-    "collection::utils::ordered_write", "collection::utils::ordered_read",
-    "collection::utils::ordered_try_write", "collection::utils::ordered_try_read",
-    "collection::utils::attempt_to_recover_writes_from_panic",
-    "collection::utils::attempt_to_recover_reads_from_panic",
-    "collection::utils::get_locks", "collection::utils::get_locks_unsorted",
-    "collection::utils::ordered_contains_duplicates", "collection::retry::contains_duplicates",
-]
+import anchors
 
 
 def _flag_read(I, st, fn, tdef, args, line, dest_ty, may_unwind):
@@ -123,10 +114,14 @@ def build(F):
         I = Interp(F)
         I.holdtypes = hold
         I.dataproj = dp
-        I.primitives = {FLAG + "is_poisoned": _flag_read, FLAG + "poison": _flag_set,
-                        FLAG + "clear_poison": _flag_clear}
-        for p in ALG_PRIMS:
+        A = anchors.get(F)
+        I.primitives = {}
+        for role, h in (("read", _flag_read), ("set", _flag_set), ("clear", _flag_clear)):
+            if role in A.flag_fn:
+                I.primitives[A.flag_fn[role]] = h
+        for p in A.alg_paths():
             I.primitives[p] = None
+        I.roles = dict(A.role)
         return I
     m = {"make": make, "holdtypes": hold, "hold_detail": hold_detail, "dataproj": dp, "dataproj_detail": dp_detail}
     _cache[key] = m
